@@ -453,6 +453,7 @@ pub struct Layout {
     pub val_off: usize,
     pub refs: usize,
     pub refs_stride: usize,
+    pub refcnt_off: usize,
     pub capacity: usize,
     pub token: usize,
     pub pos: usize,
